@@ -115,7 +115,7 @@ impl<'t> FieldTypeAndInstantiationsBuilder<'t, '_> {
 			None => 'new_name: {
 				let pattern = match field_kind {
 					FieldKind::NewtypeStruct { struct_name } => {
-						format!(r#"{{}}.{struct_name}"#)
+						format!(r#"{{}}.{}"#, struct_name.unraw())
 					}
 					FieldKind::StructField {
 						struct_name: _,
